@@ -201,6 +201,9 @@ func cowRunImpl(c corr.Case) []string {
 	for _, line := range c.Lines {
 		t := strings.Fields(line)
 		out = append(out, guard(func() string {
+			if t[0] == "deep-osl" {
+				return deepOSL(t[1])
+			}
 			if t[0] == "case" {
 				if st != nil {
 					r.CloseAll()
@@ -344,6 +347,9 @@ func c05Oracle(c corr.Case, impl []string) (string, int) {
 		if strings.Contains(impl[i], "#BASE-MODIFIED") {
 			return t[0] + " through the copy-on-write filesystem changed the base layer", i
 		}
+		if t[0] == "deep-osl" && strings.HasPrefix(impl[i], "fail") {
+			return impl[i], i
+		}
 	}
 	return "", -1
 }
@@ -353,6 +359,9 @@ func c06Oracle(c corr.Case, impl []string) (string, int) {
 		t := strings.Fields(line)
 		if impl[i] == "panic" {
 			return "call panics: " + t[0], i
+		}
+		if t[0] == "deep-osl" && strings.HasPrefix(impl[i], "fail") {
+			return impl[i], i
 		}
 		for _, tag := range []string{"#VIEW(", "#FAILED-CALL-CHANGED-VIEW", "#PAGE-TOO-LONG", "#PAGE-REPEATS", "#PAGES-NOT-THE-LISTING"} {
 			if k := strings.Index(impl[i], tag); k >= 0 {
@@ -526,6 +535,8 @@ func cowExhaustive(tier string) []corr.Case {
 			cases = append(cases, corr.Case{Lines: append(append(append([]string{}, setup...), ops...), "snapshot")})
 		}
 	}
+	// files several directories deep below an overlay that keeps real directories
+	cases = append(cases, corr.Case{Lines: []string{"case cow-mem", "deep-osl cow"}})
 	// a base file larger than any copy buffer (32 KiB): after the copy-up nothing of the overlay's copy may still be
 	// the base's memory — patch it, truncate and rewrite it, and the base must keep every byte
 	for _, st := range []string{"cow-mem", "cow-ro"} {
@@ -569,7 +580,10 @@ func cowExhaustive(tier string) []corr.Case {
 				nh += 2
 			}
 			l = append(l, "b.age", "open "+h("/d"), fmt.Sprintf("h.readdir %d -1", nh), "open "+h("/d"), fmt.Sprintf("h.readdir %d 5", nh+1),
-				fmt.Sprintf("h.readdir %d 5", nh+1), fmt.Sprintf("h.readdir %d -1", nh+1), "stat "+h("/d/w03"), "snapshot")
+				fmt.Sprintf("h.readdir %d 5", nh+1), fmt.Sprintf("h.readdir %d -1", nh+1), "stat "+h("/d/w03"),
+				// a page size at the top of the int range after a partial page
+				"open "+h("/d"), fmt.Sprintf("h.readdir %d 2", nh+2), fmt.Sprintf("h.readdir %d 9223372036854775807", nh+2), fmt.Sprintf("h.readdir %d 1", nh+2),
+				"open "+h("/d"), fmt.Sprintf("h.readdirnames %d 1", nh+3), fmt.Sprintf("h.readdirnames %d 9223372036854775806", nh+3), "snapshot")
 			cases = append(cases, corr.Case{Lines: l})
 		}
 	}
